@@ -88,23 +88,8 @@ theorem infoLines_length (h : Hist) :
 /-- the generations of the loaded root history are those of the root store, numbered by name, ascending -/
 theorem loadHistory_gens (t : Node) (h : Hist) (hl : loadHistory t = .ok h) :
     h.gens = (match t.hist with | none => [] | some s => loadGens s) := by
-  unfold loadHistory at hl
-  rw [loadOne_spec] at hl
-  cases hh : t.hist with
-  | none =>
-    simp only [hh, storeFault, bind, Except.bind] at hl
-    cases hc : findChildren [] t with
-    | error e => simp [hc] at hl
-    | ok v => simp [hc, pure, Except.pure] at hl; subst hl; rfl
-  | some s =>
-    simp only [hh] at hl
-    cases hf : storeFault (some s) with
-    | some x => simp [hf, bind, Except.bind] at hl
-    | none =>
-      simp only [hf, bind, Except.bind] at hl
-      cases hc : findChildren [] t with
-      | error e => simp [hc] at hl
-      | ok v => simp [hc, pure, Except.pure] at hl; subst hl; rfl
+  obtain ⟨kids, _, rfl⟩ := loadHistory_ok_eq t h hl
+  cases t.hist <;> rfl
 
 /-- the lines of the root history come first and in ascending generation order -/
 theorem info_root_lines_sorted (t : Node) (h : Hist) (hl : loadHistory t = .ok h) :
